@@ -86,6 +86,9 @@ def mc_run(case, mode, tag):
              lambda: StatDist(StatDistType.UNIFORM_FLOAT, UniformParameters(min_val=rep / 2, max_val=rep)),
              lambda: StatDist(StatDistType.GAMMA, GammaParameters(shape=2.0, scale=rep / 2)),
              lambda: net.FixedDist(rep)]
+    for il in getattr(ps, "ict_lines", []):
+        il.fail_rate_per_year = case["rate"]
+        il.repair_time_dist = net.FixedDist(rep)
     for k, l in enumerate(ps.lines):
         l.fail_rate_per_year = case["rate"]
         l.repair_time_dist = kinds[(k + case.get("dist0", 0)) % len(kinds)]()     # every documented distribution type is drawn from
@@ -166,6 +169,11 @@ def gen(rng, n_reset, n_mc):
         fd["ev"] = {str(k): {"hours": list(range(24)), "table": [str(rng.choice([2, 3, 5, 8])) for _ in range(24)], "v2g": True} for k in (a, b)}
         if spec["ctrl"]["type"] == "main":        # a main controller that fails (hardware / software) and is repaired: its draws are part of the stream
             spec["ctrl"]["hw_rate"] = rng.choice([400, 900]); spec["ctrl"]["sw_rate"] = rng.choice([800, 2000])
+            # a communication network whose lines fail too; in every other such case they are numbered like the power lines
+            from . import c06
+            spec["ctrl"]["ict"] = c06.fallible_ict(rng, spec)
+            if (j // 2) % 2 == 0:
+                spec["ctrl"]["ict"]["line_names"] = [f"F0L{k}" for k in range(len(spec["ctrl"]["ict"]["lines"]))]
         cases.append({"kind": "mc", "spec": spec, "n_inc": 10, "iters": rng.choice([6, 7]), "seed": rng.randint(0, 10 ** 6),
                       "rate": rng.choice([800.0, 2000.0]), "rep": rng.choice([3.0, 5.0]), "dist0": 0 if j % 2 == 0 else rng.randrange(4), "procs": [1, rng.choice([2, 3])]})   # dist0 = 0: the first line draws from the truncated normal
     return cases
